@@ -1035,3 +1035,32 @@ mod tests {
         Ok(())
     }
 }
+
+/// Read-only structural view of a transition rule for external verification harnesses.
+#[cfg(feature = "__verif")]
+impl TransitionRule {
+    /// Dump the rule as plain data
+    pub(super) fn verif_dump(&self) -> crate::offset::local::verif::RuleDump {
+        use crate::offset::local::verif::{DayDump, RuleDump};
+        fn day(d: &RuleDay) -> DayDump {
+            match *d {
+                RuleDay::Julian1WithoutLeap(n) => DayDump::Julian1(n),
+                RuleDay::Julian0WithLeap(n) => DayDump::Julian0(n),
+                RuleDay::MonthWeekday { month, week, week_day } => {
+                    DayDump::MonthWeekDay(month, week, week_day)
+                }
+            }
+        }
+        match self {
+            TransitionRule::Fixed(t) => RuleDump::Fixed(t.verif_dump()),
+            TransitionRule::Alternate(a) => RuleDump::Alternate {
+                std: a.std.verif_dump(),
+                dst: a.dst.verif_dump(),
+                start: day(&a.dst_start),
+                start_time: a.dst_start_time,
+                end: day(&a.dst_end),
+                end_time: a.dst_end_time,
+            },
+        }
+    }
+}
